@@ -50,7 +50,7 @@ pub fn meta(thorough: bool) -> (String, Value) {
 pub fn run(ctx: &mut Ctx) {
     let null = Value::Null;
     let a = cat_alphabet(ctx.tier_thorough);
-    let release = ctx.profile == "release";
+    let release = ctx.profile != "dev";
     // cat
     if release {
         if ctx.mine() {
